@@ -22,8 +22,9 @@ func main() { hl.Main("C14", run) }
 type gen struct {
 	c    *hl.Ctx
 	r    *rand.Rand
-	n    int
-	flat bool // flat fragment: objects with label/shape/fill, deletions, imports only at the top of files
+	n     int
+	nglob int
+	flat  bool // flat fragment: objects with label/shape/fill, deletions, imports only at the top of files
 }
 
 var shapes = []string{"circle", "square", "oval", "diamond", "hexagon", "cloud"}
@@ -144,15 +145,24 @@ func (g *gen) content(depth int, names *[]string) []sx.Stmt {
 				out = append(out, sx.F(sx.U(name), sx.Val{}))
 			}
 		default:
-			out = append(out, sx.F(sx.U(name, "style", "opacity"), sx.VS(lit(g.pick([]string{"0.2", "0.5", "1"})))))
+			if g.r.Intn(2) == 0 {
+				out = append(out, sx.F(sx.U(name, "icon"), sx.VS(lit(g.pick([]string{"./i.png", "../up/i.png", "img/i.png",
+					"https://e.com/i.png", "/abs/i.png", "i.svg"})))))
+				g.c.Count("content:icon")
+			} else {
+				out = append(out, sx.F(sx.U(name, "style", "opacity"), sx.VS(lit(g.pick([]string{"0.2", "0.5", "1"})))))
+			}
 		}
 	}
 	return out
 }
 
 type plan struct {
-	names   []string   // file names, [0] = entry
-	imports [][]int    // imports[i] = indices of files imported by file i
+	names   []string // file names, [0] = entry
+	imports [][]int  // imports[i] = indices of files imported by file i
+	glob    []bool   // file i declares a * glob: it is only imported into otherwise empty maps
+	exp     []bool   // file i declares `exp<i>: E {…; inner: I}` exactly once, importable by key (only files without globs)
+	triple  []bool   // file i declares a *** glob
 }
 
 var fileNames = [][]string{
@@ -165,7 +175,23 @@ var fileNames = [][]string{
 func (g *gen) plan(cyclic bool) plan {
 	layout := fileNames[g.r.Intn(len(fileNames))]
 	k := 1 + g.r.Intn(4)
-	p := plan{names: layout[:k], imports: make([][]int, k)}
+	p := plan{names: layout[:k], imports: make([][]int, k), glob: make([]bool, k), exp: make([]bool, k), triple: make([]bool, k)}
+	for i := 1; i < k; i++ {
+		if !g.flat {
+			p.glob[i] = g.r.Intn(5) == 0
+			p.triple[i] = g.r.Intn(6) == 0
+			p.exp[i] = g.r.Intn(2) == 0
+		}
+	}
+	// key imports select a declaration textually: keep them to file sets without globs (a glob of any file of the
+	// chain may restyle the selected object)
+	for i := 1; i < k; i++ {
+		if p.glob[i] || p.triple[i] {
+			for j := range p.exp {
+				p.exp[j] = false
+			}
+		}
+	}
 	// forward (acyclic) imports
 	for i := 0; i < k; i++ {
 		for j := i + 1; j < k; j++ {
@@ -188,6 +214,25 @@ func (g *gen) fileBody(p plan, i int, missing bool) []sx.Stmt {
 	var names []string
 	body := g.content(0, &names)
 	me := p.names[i]
+	if p.exp[i] {
+		body = append(body, sx.FP(sx.U(fmt.Sprintf("exp%d", i)), lit("E"+fmt.Sprint(i)), []sx.Stmt{
+			sx.F(sx.U("shape"), sx.VS(lit(g.pick(shapes)))),
+			sx.FP(sx.U("inner"), lit("I"+fmt.Sprint(i)), []sx.Stmt{sx.F(sx.U("style", "fill"), sx.VS(lit(g.pick(colours))))}),
+		}))
+	}
+	// globs of different files set different attributes: which of two globs wins on one attribute is C12's subject
+	starAttr := [][2]string{{"stroke-width", "3"}, {"border-radius", "4"}, {"font-size", "20"}, {"stroke-width", "5"}}[i%4]
+	tripleAttr := [][2]string{{"stroke-dash", "2"}, {"shadow", "true"}, {"bold", "true"}, {"italic", "true"}}[i%4]
+	if p.glob[i] {
+		pos := g.r.Intn(len(body) + 1)
+		gl := sx.F(sx.U(g.pick([]string{"*", "n*", "**"}), "style", starAttr[0]), sx.VS(lit(starAttr[1])))
+		body = append(body[:pos], append([]sx.Stmt{gl}, body[pos:]...)...)
+		g.c.Count("content:glob-in-imported-file")
+	}
+	if p.triple[i] {
+		body = append([]sx.Stmt{sx.F(sx.U("***", "style", tripleAttr[0]), sx.VS(lit(tripleAttr[1])))}, body...)
+		g.c.Count("content:triple-glob-in-imported-file")
+	}
 	topUsed := false
 	for _, j := range p.imports[i] {
 		sp := g.spell(me, p.names[j])
@@ -198,8 +243,19 @@ func (g *gen) fileBody(p plan, i int, missing bool) []sx.Stmt {
 			}
 			form = 0
 		}
-		if form == 0 && topUsed {
-			form = 1 + g.r.Intn(3) // only one import can be "at the top of the file"
+		if form == 0 && (topUsed || p.glob[j]) {
+			form = 1 + g.r.Intn(3) // only one import can be "at the top of the file"; a file with * globs goes into an empty map
+		}
+		if p.exp[j] && g.r.Intn(3) == 0 {
+			// import by key: the field `exp` (or `exp.inner`) of the imported file
+			key := fmt.Sprintf(".exp%d", j)
+			if g.r.Intn(2) == 0 {
+				key += ".inner"
+			}
+			sp2 := strings.TrimSuffix(sp, ".d2")
+			body = append(body, sx.F(sx.U(g.fresh("k")), sx.VImp(sp2+key)))
+			g.c.Count("form:import-key")
+			continue
 		}
 		switch form {
 		case 0:
@@ -227,6 +283,7 @@ func (g *gen) fileBody(p plan, i int, missing bool) []sx.Stmt {
 
 func (g *gen) prog() sx.Prog {
 	g.n = 0
+	g.nglob = 0
 	g.flat = g.r.Intn(4) == 0
 	if g.flat {
 		g.c.Count("fragment:flat")
